@@ -153,13 +153,14 @@ theorem C01_calls (c : Case) (hwf : wf c = true) (hk : known c = [])
   rfl
 
 /-- **C01_converter_once**: in one well-formed construction the converter of a field of the class is invoked
-    exactly once if the field participates and has a converter, and never otherwise; its factory exactly once
+    exactly once if the field participates and has a converter (for a converter chain `converter=[c0, c1, …]`:
+    `convCount` = one invocation per member, see `C01_pipe_member_once`), and never otherwise; its factory exactly once
     if the field participates and no value was supplied for it (`init=False`, or the parameter was not
     passed) and its default is a factory, and never otherwise — so every instance gets a value that went
     through the converter once, in that call, and a factory result of its own. -/
 theorem C01_converter_once (c : Case) (hwf : wf c = true) (hk : known c = [])
     (hok : callOk (params c.run.attrs) c.call = true) (a : Attr) (ha : a ∈ c.run.attrs) :
-    callCount "conv" a.name (runInit c).trace = (if participates a && a.conv.isSome then 1 else 0) ∧
+    callCount "conv" a.name (runInit c).trace = (if participates a then convCount a else 0) ∧
     callCount "factory" a.name (runInit c).trace =
       (if participates a && fromFactory c.run.attrs c.call a then 1 else 0) := by
   have hc : callsOf (runInit c).trace = expectedCalls c.run.attrs c.call := C01_calls c hwf hk hok
@@ -170,6 +171,26 @@ theorem C01_converter_once (c : Case) (hwf : wf c = true) (hk : known c = [])
   have h := callCount_expectedCalls c.run.attrs c.call hnd a ha
   rw [← hc, callCount_callsOf _ _ (Or.inl rfl), callCount_callsOf _ _ (Or.inr rfl)] at h
   exact h
+
+/-- the invocation of member `i` of field `a`'s converter (chain) -/
+def convCallEv (a : Attr) (i : Nat) : Event := { id := { kind := "conv", field := a.name, idx := i }, args := [] }
+
+/-- **C01_pipe_member_once**: the converter invocations the statement allows for a field are pairwise distinct and
+    are exactly the members `i < convCount a` of its chain (one, `idx 0`, for a single converter): together with
+    `C01_calls` every member of `converter=[c0, c1, …]` runs exactly once per construction, in list order. -/
+theorem C01_pipe_member_once (a : Attr) :
+    (convCalls a).Nodup ∧ ∀ i, convCallEv a i ∈ convCalls a ↔ i < convCount a := by
+  constructor
+  · unfold convCalls List.Nodup
+    rw [List.pairwise_map]
+    exact List.nodup_range.imp (fun h e => h (by injection e with e1; injection e1))
+  · intro i
+    unfold convCalls convCallEv
+    simp
+
+/-- a single converter is a chain of one -/
+theorem convCount_single (a : Attr) (c : Conv) (hc : a.conv = some c) (hp : a.pipe = none) : convCount a = 1 := by
+  simp [convCount, hc, hp]
 
 /-- **C01_calls_only_fields**: no converter or factory other than those of the class's participating fields
     is invoked by a well-formed construction. -/
